@@ -79,6 +79,7 @@ plain!(p7, 7);
 
 pub const PLAIN: [fn(u64, u64, u64, u64, u64) -> u64; NH] = [p0, p1, p2, p3, p4, p5, p6, p7];
 
+#[cfg(not(miri))]
 macro_rules! hostile {
     ($shim:ident, $body:ident, $j:expr) => {
         extern "C" fn $body(a: u64, b: u64, c: u64, d: u64, e: u64, rsp: u64) -> u64 {
@@ -110,15 +111,33 @@ macro_rules! hostile {
         }
     };
 }
+#[cfg(not(miri))]
 hostile!(h0, hb0, 0);
+#[cfg(not(miri))]
 hostile!(h1, hb1, 1);
+#[cfg(not(miri))]
 hostile!(h2, hb2, 2);
+#[cfg(not(miri))]
 hostile!(h3, hb3, 3);
+#[cfg(not(miri))]
 hostile!(h4, hb4, 4);
+#[cfg(not(miri))]
 hostile!(h5, hb5, 5);
+#[cfg(not(miri))]
 hostile!(h6, hb6, 6);
+#[cfg(not(miri))]
 hostile!(h7, hb7, 7);
 
+#[cfg(miri)]
+pub fn hostile(j: usize) -> fn(u64, u64, u64, u64, u64) -> u64 {
+    PLAIN[j % NH]
+}
+#[cfg(miri)]
+pub fn gentle(j: usize) -> fn(u64, u64, u64, u64, u64) -> u64 {
+    PLAIN[j % NH]
+}
+
+#[cfg(not(miri))]
 pub fn hostile(j: usize) -> fn(u64, u64, u64, u64, u64) -> u64 {
     let f: extern "C" fn(u64, u64, u64, u64, u64) -> u64 = [h0, h1, h2, h3, h4, h5, h6, h7][j % NH];
     // rbpf's helper type is a Rust-ABI fn pointer; for five integer arguments the Rust ABI and the
@@ -128,6 +147,7 @@ pub fn hostile(j: usize) -> fn(u64, u64, u64, u64, u64) -> u64 {
 
 /// "Gentle" shims: record rsp like the hostile ones but preserve all registers except rax, so
 /// that monitors can separate ABI-alignment findings from clobber findings.
+#[cfg(not(miri))]
 macro_rules! gentle {
     ($shim:ident, $body:ident) => {
         #[unsafe(naked)]
@@ -148,15 +168,24 @@ macro_rules! gentle {
         }
     };
 }
+#[cfg(not(miri))]
 gentle!(g0, hb0);
+#[cfg(not(miri))]
 gentle!(g1, hb1);
+#[cfg(not(miri))]
 gentle!(g2, hb2);
+#[cfg(not(miri))]
 gentle!(g3, hb3);
+#[cfg(not(miri))]
 gentle!(g4, hb4);
+#[cfg(not(miri))]
 gentle!(g5, hb5);
+#[cfg(not(miri))]
 gentle!(g6, hb6);
+#[cfg(not(miri))]
 gentle!(g7, hb7);
 
+#[cfg(not(miri))]
 pub fn gentle(j: usize) -> fn(u64, u64, u64, u64, u64) -> u64 {
     let f: extern "C" fn(u64, u64, u64, u64, u64) -> u64 = [g0, g1, g2, g3, g4, g5, g6, g7][j % NH];
     unsafe { std::mem::transmute(f) }
